@@ -180,65 +180,91 @@ def monitor_nets(ctx, specs, which, limit):
         except Exception:  # noqa: BLE001
             continue
         mode = "hydraulics"
-        # C01: every second net with the DEFAULT tolerances (tol_m = 1e-5): by balance_after_step the nodal
+        # C01: every fourth net with the DEFAULT tolerances (tol_m = 1e-5): by balance_after_step the nodal
         # imbalance after any full step is round-off, however loosely the iteration is stopped - this is what
-        # exposes a wrong Jacobian entry whose residual is still right
-        loose = which == "c01" and k_net % 2 == 1
+        # exposes a wrong Jacobian entry whose residual is still right.
+        # Sequences on ONE net object (state kept between calls must not leak into the next result):
+        #   "transient": pipeflow(transient=True, simulation_time_step=0,1,2) with table edits in between,
+        #   "repeat":    two ordinary calls with table edits in between
+        kind = ["single", "loose" if which == "c01" else "single", "transient", "repeat"][k_net % 4]
+        loose = kind == "loose"
         tol_kw = dict(tol_p=1e-5, tol_m=1e-5, tol_res=1e-3) if loose else {}
         tol_m = 1e-5 if loose else 1e-10
-        status, msg = H.run_pipeflow(net, mode=mode, use_numba=False, **tol_kw)
-        if status != "ok":
-            stats["notconv" if status == "notconv" else "other"] += 1
-            ctx.count("monitor:" + status)
-            continue
-        stats["ok"] += 1
-        ctx.count("monitor:converged:" + prof)
+        steps = {"single": 1, "loose": 1, "transient": 3, "repeat": 2}[kind]
         d = gen.describe(spec)
-        if which == "c01":
-            rows, (feed, cons, mag, has_circ) = H.junction_balance(net)
-            worst = 0.0
-            for j, imb, sabs, bound, circ in rows:
-                stats["checked"] += 1
-                b = bound + (100 * tol_m if circ else 0.0)  # DESIGN C01.9: slack mass of a circ-pump flow node ~ tol_m
-                worst = max(worst, abs(imb) / b)
-                if not abs(imb) <= b:
-                    report({"clause": "junction_balance", "circ_flow_junction": circ, "profile": prof,
-                                   "features": spec.get("features", [])},
-                                  "reported mass flows at junction %s sum to %.3e (bound %.1e, sum|m| %.3e)" % (j, imb, b, sabs),
-                                  {"spec": spec, "junction": j, "imbalance": imb,
-                                   "options": dict(H.TIGHT, mode=mode, use_numba=False, **tol_kw)})
-            gb = 1e-9 * (1 + mag) + (100 * tol_m if has_circ else 0.0)
-            if not abs(feed + cons) <= gb:
-                report({"clause": "global_balance", "profile": prof, "has_circ_pump": has_circ},
-                              "sum of ext-grid flows %.6e + (consumption - injection) %.6e = %.3e (bound %.1e)"
-                              % (feed, cons, feed + cons, gb),
-                              {"spec": spec, "options": dict(H.TIGHT, mode=mode, use_numba=False)})
-            ctx.case({"kind": "pipeflow", "profile": prof, "junctions": d["junctions"], "counts": d["counts"],
-                      "worst_imbalance_over_bound": worst, "default_tolerances": loose}, d["junctions"] > 3, key="p:" + gen.spec_key(spec)[:4000])
-        else:
-            for clause, tbl, idx, obs, exp, tol, extra in H.setpoints(net):
-                stats["checked"] += 1
-                ctx.count("setpoint:" + clause)
-                ok = (np.isnan(exp) and np.isnan(obs)) or abs(obs - exp) <= tol
-                if not ok:
-                    sig = {"clause": clause, "table": tbl}
-                    if clause == "pump_lift_curve":
-                        # deltap equals the curve at mdot / rho(273.15 K) but not at the reported vdot = mdot / rho(T)
-                        sig["explained_by_normal_density"] = extra["explained_by_normal_density"]
-                        sig["fluid_is_liquid"] = True
-                    report(sig, "%s %s[%s]: result %.12g, prescribed %.12g (tol %.1e) %s"
-                                  % (clause, tbl, idx, obs, exp, tol, extra),
-                                  {"spec": spec, "table": tbl, "index": idx, "observed": obs, "expected": exp,
-                                   "options": dict(H.TIGHT, mode=mode, use_numba=False)})
-            ctx.case({"kind": "pipeflow", "profile": prof, "junctions": d["junctions"], "counts": d["counts"]},
-                     d["junctions"] > 3, key="p:" + gen.spec_key(spec)[:4000])
+        for step in range(steps):
+            kw = dict(tol_kw)
+            if kind == "transient":
+                kw.update(transient=True, dt=60., simulation_time_step=step)
+            if step:
+                H.mutate(ctx.rng, net)
+            status, msg = H.run_pipeflow(net, mode=mode, use_numba=False, **kw)
+            if status != "ok":
+                stats["notconv" if status == "notconv" else "other"] += 1
+                ctx.count("monitor:" + status)
+                break
+            stats["ok"] += 1
+            ctx.count("monitor:converged:%s:%s" % (prof, kind))
+            opts = dict(H.TIGHT, mode=mode, use_numba=False, **kw)
+            rep = {"spec": spec, "sequence": kind, "step": step, "options": opts,
+                   "note": "steps > 0 follow harness.c01_help.mutate edits with the check's PRNG; "
+                           "tables at the failing step are in `tables`"}
+            if step:
+                rep["tables"] = {t: net[t].to_dict(orient="list") for t in ("sink", "source", "mass_storage", "ext_grid",
+                                                                           "flow_control", "press_control")
+                                 if t in net and len(net[t])}
+            _evaluate(ctx, net, which, spec, prof, kind, step, tol_m, rep, report, stats, d)
     return stats
+
+
+def _evaluate(ctx, net, which, spec, prof, kind, step, tol_m, rep, report, stats, d):
+    import numpy as np
+    if which == "c01":
+        rows, (feed, cons, mag, has_circ) = H.junction_balance(net)
+        worst = 0.0
+        for j, imb, sabs, bound, circ in rows:
+            stats["checked"] += 1
+            b = bound + (100 * tol_m if circ else 0.0)  # DESIGN C01.9: slack mass of a circ-pump flow node ~ tol_m
+            worst = max(worst, abs(imb) / b)
+            if not abs(imb) <= b:
+                report({"clause": "junction_balance", "circ_flow_junction": circ, "profile": prof, "sequence": kind,
+                        "later_step": step > 0, "features": spec.get("features", [])},
+                       "reported mass flows at junction %s sum to %.3e (bound %.1e, sum|m| %.3e) [%s step %d]"
+                       % (j, imb, b, sabs, kind, step), dict(rep, junction=j, imbalance=imb))
+        gb = 1e-9 * (1 + mag) + (100 * tol_m if has_circ else 0.0)
+        if not abs(feed + cons) <= gb:
+            report({"clause": "global_balance", "profile": prof, "has_circ_pump": has_circ, "sequence": kind,
+                    "later_step": step > 0},
+                   "sum of ext-grid flows %.6e + (consumption - injection) %.6e = %.3e (bound %.1e) [%s step %d]"
+                   % (feed, cons, feed + cons, gb, kind, step), rep)
+        ctx.case({"kind": "pipeflow", "profile": prof, "junctions": d["junctions"], "counts": d["counts"],
+                  "worst_imbalance_over_bound": worst, "sequence": kind, "step": step}, d["junctions"] > 3,
+                 key="p:%s:%d:%s" % (kind, step, gen.spec_key(spec)[:4000]))
+    else:
+        for clause, tbl, idx, obs, exp, tol, extra in H.setpoints(net):
+            stats["checked"] += 1
+            ctx.count("setpoint:" + clause)
+            ok = (np.isnan(exp) and np.isnan(obs)) or abs(obs - exp) <= tol
+            if not ok:
+                sig = {"clause": clause, "table": tbl}
+                if clause == "pump_lift_curve":
+                    # deltap equals the curve at mdot / rho(273.15 K) but not at the reported vdot = mdot / rho(T)
+                    sig["explained_by_normal_density"] = extra["explained_by_normal_density"]
+                    sig["fluid_is_liquid"] = True
+                else:
+                    sig["sequence"] = kind
+                report(sig, "%s %s[%s]: result %.12g, prescribed %.12g (tol %.1e) %s [%s step %d]"
+                       % (clause, tbl, idx, obs, exp, tol, extra, kind, step),
+                       dict(rep, table=tbl, index=idx, observed=obs, expected=exp))
+        ctx.case({"kind": "pipeflow", "profile": prof, "junctions": d["junctions"], "counts": d["counts"],
+                  "sequence": kind, "step": step}, d["junctions"] > 3,
+                 key="p:%s:%d:%s" % (kind, step, gen.spec_key(spec)[:4000]))
 
 
 def make_specs(ctx, n, profiles=("water", "gas"), heat_every=6):
     specs = []
     for i in range(n):
-        force = ["pc"] if i % 5 == 0 else ["multi_eg"] if i % 5 == 1 else None
+        force = [["pc", "standby"], ["multi_eg"], ["pumps"], None, None][i % 5]
         if heat_every and i % heat_every == heat_every - 1:
             specs.append(H.gen_spec(ctx.rng, ("heat",)))
         else:
@@ -355,10 +381,32 @@ def run(ctx):
         ctx.broken("harness", "monitor", "fewer than 10 generated nets converged: %s" % st)
 
 
+def replay_net(obj):
+    """rebuild the net of a replay file (spec + the tables as they were at the failing step) and run it"""
+    import pandas as pd
+    rep = obj["replay"]
+    net = gen.build(rep["spec"])
+    opts = dict(rep.get("options", {}))
+    if rep.get("step", 0) and rep.get("sequence") == "transient":
+        # the earlier steps of the sequence on the same net object (the state they leave behind is the point)
+        for st in range(rep["step"]):
+            H.run_pipeflow(net, **dict(opts, simulation_time_step=st))
+    elif rep.get("step", 0):
+        H.run_pipeflow(net, **opts)
+    for t, cols in rep.get("tables", {}).items():
+        for c, vals in cols.items():
+            net[t][c] = pd.Series(vals, index=net[t].index).astype(net[t][c].dtype, errors="ignore")
+    print("pipeflow:", H.run_pipeflow(net, **opts))
+    return net
+
+
 def replay(ctx, path):
     import json
     obj = json.load(open(path))
+    net = replay_net(obj)
+    which = "c03" if obj.get("property") == "C03" else "c01"
+    stats = {"ok": 0, "notconv": 0, "other": 0, "checked": 0}
     spec = obj["replay"]["spec"]
-    monitor_nets(ctx, [(spec, "replay")], "c01", 1)
-    bad = exact_oracle(ctx, spec)
-    print("exact oracle:", bad)
+    _evaluate(ctx, net, which, spec, "replay", obj["replay"].get("sequence", "single"), obj["replay"].get("step", 0),
+              obj["replay"].get("options", {}).get("tol_m", 1e-10), {"spec": spec}, ctx.violation, stats, gen.describe(spec))
+    print("checked:", stats["checked"])
